@@ -545,4 +545,43 @@ theorem runHistoryL_closed {α} (z : α) (lut : List LutRow) (frames : List (Img
     rw [ih]
 
 
+/-- the set-up on a locked, existing table: the DROP fails, nothing changes -/
+theorem tempSetup_locked (data t : ChanTable) : runOpsL true tempTableSetup data (some t) = (some t, some .other) := by
+  simp [tempTableSetup, runOpsL, tempOpL]
+
+/-- **a refused read leaves a lock** (iterator that does not close its cursor, caller keeps the exception): if the frame query has
+at least one row -/
+theorem stepReadL_refused_locks {α} (z : α) (lut : List LutRow) (frames : List (Img α)) (rows cols th tw : Int) (full am : Bool)
+    (q : ChanRead) (st : TempState) (r0 r1 c0 c1 cnt : Int)
+    (hl : q.labelmap = false) (hu : uniquePos lut = true)
+    (hstd : stdRowColIndices q.rs q.re q.cs q.ce rows cols q.asIdx false = .ok (r0, r1, c0, c1))
+    (hcnt : expectedCount r0 r1 c0 c1 th tw = .ok cnt) (hk : (q.data.map Prod.fst).Nodup) (href : q.bodyRefuses = true)
+    (hnc : tempTableCleanupOnError = false)
+    (r : LutRow) (hr : r ∈ lut) (hsel : selected r0 r1 c0 c1 th tw r = true) (t : Int × Int) (ht : t ∈ q.data) (htr : t.2 = r.ch) :
+    stepReadL z lut frames rows cols th tw full am false true q ⟨st, false⟩ = (⟨some q.data, true⟩, .error .value) := by
+  have hrows : (joinRows ((lut.filter (selected r0 r1 c0 c1 th tw)).mergeSort lutLe) q.data).isEmpty = false := by
+    have hm : (r, t.1) ∈ joinRows ((lut.filter (selected r0 r1 c0 c1 th tw)).mergeSort lutLe) q.data := by
+      unfold joinRows
+      rw [List.mem_flatMap]
+      refine ⟨r, (mem_sel_iff _ _ _ _ _ _ _ r).mpr ⟨hr, hsel⟩, ?_⟩
+      rw [List.mem_map]
+      exact ⟨t, by rw [List.mem_filter]; exact ⟨ht, by simp [htr]⟩, rfl⟩
+    cases hj : joinRows ((lut.filter (selected r0 r1 c0 c1 th tw)).mergeSort lutLe) q.data with
+    | nil => rw [hj] at hm; simp at hm
+    | cons a l => rfl
+  unfold stepReadL
+  simp only [hl, Bool.false_eq_true, if_false, hu, Bool.not_true, hstd, hcnt, runOpsL_unlocked, tempSetup_exact q.data st hk, href,
+    if_true, hnc, hrows, Bool.not_false, Bool.and_self]
+
+/-- **a locked connection refuses every segment-aware read** that gets as far as the set-up -/
+theorem stepReadL_locked_refuses {α} (z : α) (lut : List LutRow) (frames : List (Img α)) (rows cols th tw : Int) (full am closes kept : Bool)
+    (q : ChanRead) (t : ChanTable) (r0 r1 c0 c1 cnt : Int)
+    (hl : q.labelmap = false) (hu : uniquePos lut = true)
+    (hstd : stdRowColIndices q.rs q.re q.cs q.ce rows cols q.asIdx false = .ok (r0, r1, c0, c1))
+    (hcnt : expectedCount r0 r1 c0 c1 th tw = .ok cnt) :
+    stepReadL z lut frames rows cols th tw full am closes kept q ⟨some t, true⟩ = (⟨some t, true⟩, .error .other) := by
+  unfold stepReadL
+  simp only [hl, Bool.false_eq_true, if_false, hu, Bool.not_true, hstd, hcnt, tempSetup_locked]
+
+
 end HdVerif.TilingLemmas
